@@ -26,7 +26,14 @@ func vConcurrentWithMaintenance(maint func(), ops []vOp, apply func(i int), afte
 	yieldCount := 0
 	maintDone := false
 	if vSymbolic() {
-		verifYieldFn = func(int) { yieldCount++ }
+		verifYieldFn = func(point int) {
+			yieldCount++
+			if point >= 10 {
+				// Backup's lock-free points are scheduling points of their own
+				// (compaction's are each followed by a lock acquisition, which already is one)
+				vYield()
+			}
+		}
 		vGo(func() {
 			maint()
 			maintDone = true
